@@ -26,7 +26,7 @@ XML_NS = "http://www.w3.org/XML/1998/namespace"
 
 ALL_KINDS = [
     "prefix", "default", "decl_place", "unused_decl", "attrs", "ws", "comment", "pi", "comment_text", "pi_text",
-    "cdata", "charref", "encoding", "value_ws", "empty", "quote", "doctype", "xinclude", "bigpad",
+    "cdata", "charref", "encoding", "value_ws", "empty", "quote", "doctype", "xinclude", "xinclude_subdir", "bigpad",
 ]
 
 
@@ -561,7 +561,7 @@ def respell(tree, ann, rng, kinds):
                 cpath = path + (i,)
                 if cpath in inc_paths:
                     # the subtree goes to a file of its own, with its own declarations
-                    fname = "part%d.xml" % len(files)
+                    fname = ("sub/" if "xinclude_subdir" in kinds else "") + "part%d.xml" % len(files)
                     files[fname] = None
                     holder = []
                     files[fname] = emit(c, cpath, {}, False, holder)
@@ -576,6 +576,9 @@ def respell(tree, ann, rng, kinds):
                             inherit(g)
 
                     inherit(inc)
+                    if "/" in fname:
+                        # libxml2's XInclude (base URI fixup) adds xml:base to a root included from another directory
+                        inc["_xml_base"] = fname
                     new_node["c"].append(inc)
                     xi_decl = "" if scope.get("xi") == XI else ' xmlns:xi="%s"' % XI
                     sub = '<xi:include%s href="%s"/>' % (xi_decl, fname)
